@@ -3,18 +3,27 @@
    that C03 talks about; the check is C03's decidable clause on the observation. *)
 From Coq Require Import List Bool Arith String.
 Import ListNotations.
-From Lime Require Import Base.Res Hs.Types Hs.Server Hs.Monitor Corr.HsServer Corr.HsChecks Hs.Builder Corr.Builder.
+From Lime Require Import Base.Res Hs.Types Hs.Server Hs.Monitor Corr.HsServer Corr.HsChecks Hs.Builder Corr.Builder Corr.Interop.
 (* besides the scripted handshakes against a Server configured directly: ServerBuilders and the Servers they
    build (Corr/Builder.v) *)
 Inductive case := KScript (c : scase) | KB (b : bcase)
 (* a peer that sends one session envelope and vanishes at once (see Corr/HsChecks.v): no session may come of it *)
 | KAbrupt (kind : tkind) (first : cses) (est_cb fin_cb : nat) (ended : bool)
-          (peer_saw_end : bool).   (* the peer, where it waited for it, saw the connection end (true where it did not wait) *)
+          (peer_saw_end : bool)    (* the peer, where it waited for it, saw the connection end (true where it did not wait) *)
+(* a real ClientChannel.EstablishSession against a real Server (Corr/Interop.v): both ends of one handshake *)
+| KInterop (c : icase).
 Definition check (c : case) : bool :=
   match c with
   | KScript s => c03_check s
   | KB b => check_c03 b
   | KAbrupt _ _ est _ _ saw => Nat.eqb est 0 && saw
+  (* a client that reports an established session holds the session id and the node of a session the server
+     established (its Established callback ran, for that id and that node) *)
+  | KInterop i =>
+      match i_out i with
+      | IRet SEstablished => i_srv_est i && i_sid_eq i && Nat.eqb (i_srv_remote i) (i_cli_local i)
+      | _ => true
+      end
   end.
 Definition agrees (c : case) : bool :=
   match c with
@@ -22,6 +31,7 @@ Definition agrees (c : case) : bool :=
   | KB b => agrees_c03 b
   | KAbrupt k first est fin ended saw =>
       match abrupt_model k first with (e, f, d) => Nat.eqb est e && Nat.eqb fin f && Bool.eqb ended d && saw end
+  | KInterop i => interop_agrees i
   end.
 Definition mismatches (cs : list case) : list nat := bad_indices agrees cs.
 Definition violations (cs : list case) : list nat := bad_indices check cs.
